@@ -110,9 +110,47 @@ def run_shard(desc):
     else:
         # arbitrary accepted inputs; token boundaries come from the tokenizer hook
         cands = []
+        regs = []
+        table = ref.BUILTINS
+        if kind == "config":
+            # a process in which extra operators are registered, some of them in two roles under one symbol (postfix+infix,
+            # prefix+infix, prefix+postfix) and as words: the relation is the same, whatever is registered
+            table = ref.BUILTINS.copy()
+            pool = [("%%", ("postfix", "infix")), ("±", ("prefix", "infix")), ("~", ("prefix", "postfix")), ("pct", ("postfix",)), ("neg", ("prefix",)), ("~>", ("infix",)), ("upto", ("infix",)),
+                    ("!!", ("postfix", "infix")), ("§", ("prefix", "postfix", "infix")), ("twice", ("prefix", "infix")), ("++", ("infix",)), ("-", ("postfix",)), ("not", ("postfix",))]
+            mine = rnd.sample(pool, rnd.randint(2, 5))
+            for nm, roles in mine:
+                for role in roles:
+                    if role == "infix":
+                        prec = rnd.choice([30, 65, 105, 115, 130])
+                        assoc = rnd.choice(["LEFT", "RIGHT"])
+                        for k2, v in table.infix.items():
+                            if v[0] == prec:
+                                assoc = v[1]
+                        table.infix[nm] = (prec, assoc, "CALC")
+                        regs.append({"op": "reg_infix", "name": nm, "prec": prec, "type": "CALC", "assoc": assoc, "beh": {"id": 5}})
+                    else:
+                        getattr(table, role).add(nm)
+                        regs.append({"op": "reg_" + role, "name": nm, "beh": {"id": 6}})
+            tg = gen.TreeGen(rnd, table=table)
+            names_ = [nm for nm, _ in mine]
+            tg.infix = tg.infix + [o for o in names_ if o in table.infix] * 8
+            tg.prefix = tg.prefix + [o for o in names_ if o in table.prefix] * 4
+            tg.postfix = tg.postfix + [o for o in names_ if o in table.postfix] * 4
         for _ in range(n):
             t = tg.program(d=rnd.randint(1, 3))
-            s = ref.join_tokens(ref.Renderer(rnd=rnd, extra_parens=0.1).tokens(t), rnd=rnd, compact=rnd.choice([0.5, 1]))
+            if kind == "config" and rnd.random() < 0.4:
+                # flat token walks: operand (op operand)* with prefix/postfix decorations from the whole table
+                toks = []
+                for q in range(rnd.randint(1, 5)):
+                    if q:
+                        toks.append(rnd.choice(tg.infix))
+                    toks += [rnd.choice(tg.prefix) for _ in range(gen.wchoice(rnd, [(0, 5), (1, 3), (2, 1)]))]
+                    toks.append(rnd.choice(["a", "b", "1", "(c)", "f(2)", "[d]", "2.5", "'s'"]))
+                    toks += [rnd.choice(tg.postfix) for _ in range(gen.wchoice(rnd, [(0, 5), (1, 3), (2, 0.5)]))]
+                s = "".join(x + rnd.choice(["", " ", " "]) for x in toks)
+            else:
+                s = ref.join_tokens(ref.Renderer(table=table, rnd=rnd, extra_parens=0.1).tokens(t), rnd=rnd, compact=rnd.choice([0.5, 1]))
             for _ in range(rnd.randint(0, 2)):
                 s = corrupt(rnd, s)
             cands.append(s)
@@ -120,18 +158,18 @@ def run_shard(desc):
         for s in cands:
             steps.append({"op": "tokenize", "text": s})
             steps.append({"op": "parse", "text": s, "want": "a"})
-        recs, events, _ = common.run_batch(steps, wd, "hook-a-%d" % si, profile)
+        recs, events, _ = common.run_batch(steps, wd, "%s-a-%d" % (kind, si), profile, pre=regs)
         groups = []
         for i, s in enumerate(cands):
             tk, pr = recs[2 * i], recs[2 * i + 1]
             if tk is None or pr is None or pr.get("p") != "ok" or "toks" not in tk:
                 continue
             try:
-                rt = ref.rtok(s)
+                rt = ref.rtok(s, table)
             except (ref.Abstain, ref.LexError):
                 part["abstained"] += 1
                 continue
-            if any(t[0] in ("ref", "func") and t[1] in ref.BUILTINS.all_ops() for t in rt):
+            if any(t[0] in ("ref", "func") and t[1] in table.all_ops() for t in rt):
                 part["abstained"] += 1
                 continue
             b = s.encode("utf-8")
@@ -147,14 +185,14 @@ def run_shard(desc):
         for s, pr, vs in groups:
             for _, _, text in vs:
                 steps.append({"op": "parse", "text": text, "want": "a"})
-        recs2, events2, _ = common.run_batch(steps, wd, "hook-b-%d" % si, profile)
+        recs2, events2, _ = common.run_batch(steps, wd, "%s-b-%d" % (kind, si), profile, pre=regs)
         events = list(events) + list(events2)
         k = 0
         for s, pr, vs in groups:
             rs = recs2[k:k + len(vs)]
             k += len(vs)
-            part["counts"]["bases_hook"] += 1
-            judge(part, s, pr, vs, rs, profile)
+            part["counts"]["bases_" + kind] += 1
+            judge(part, s, pr, vs, rs, profile, regs)
     for kind_, detail, k in events:
         if kind_ in ("signal", "hang", "deadlock"):
             part["violations"].append({"sig": ["crash", kind_], "what": detail, "replay": None})
@@ -164,12 +202,12 @@ def run_shard(desc):
     return part
 
 
-def judge(part, base_text, base_rec, vs, rs, profile):
+def judge(part, base_text, base_rec, vs, rs, profile, regs=()):
     for (label, cls, text), r in zip(vs, rs):
         if r is None:
             continue
         part["evaluations"] += 1
-        k = "variants_gen" if "variants_gen" in part["counts"] else "variants_hook"
+        k = [x for x in part["counts"] if x.startswith("variants_")][0]
         part["counts"][k] = part["counts"].get(k, 0) + 1
         if r.get("p") == "ok" and r.get("ast") == base_rec.get("ast"):
             part["classes"].add(cls)
@@ -181,7 +219,7 @@ def judge(part, base_text, base_rec, vs, rs, profile):
             part["violations"].append({
                 "sig": [label, cls.split(":")[1] if ":" in cls else cls, "rejected" if r.get("p") != "ok" else "different"],
                 "what": "%r and its %s variant %r parse differently: %s vs %s" % (base_text, label, text, json.dumps(base_rec.get("ast"), ensure_ascii=False), got),
-                "replay": {"steps": [{"op": "parse", "text": base_text, "want": "a"}, {"op": "parse", "text": text, "want": "a"}], "profile": profile},
+                "replay": {"steps": list(regs) + [{"op": "parse", "text": base_text, "want": "a"}, {"op": "parse", "text": text, "want": "a"}], "profile": profile},
             })
 
 
@@ -198,6 +236,8 @@ def run(rep, tier):
         shards.append(("gen", i, per, "release" if i % 2 else "verifdbg"))
     for i in range(nh // (per * 2)):
         shards.append(("hook", i, per * 2, "release" if i % 2 else "verifdbg"))
+    for i in range(16 if tier == "quick" else 320):
+        shards.append(("config", i, 1000, "release" if i % 2 else "verifdbg"))
     for part in common.pmap(run_shard, shards):
         rep.merge(part)
     rep.floor = 5000
@@ -207,7 +247,7 @@ def replay(path):
     d = json.load(open(path))
     wd = common.workdir(PROP, "replay")
     run = common.run_vexec(d["replay"]["steps"], wd, "replay", d["replay"].get("profile", "verifdbg"))
-    st = run.steps()
+    st = run.steps()[-2:]
     for r in st:
         print(json.dumps(r, ensure_ascii=False))
     if len(st) == 2 and st[0].get("p") == "ok" and st[1].get("p") == "ok" and st[0].get("ast") == st[1].get("ast"):
